@@ -26,7 +26,7 @@ TECHNIQUE = (
 )
 RULE = (
     "full product of data class (catalogue random series; damped oscillators |lambda| in {0.7,0.9} x arg in {0.3,0.5,1.2} plus a real "
-    "decaying mode, mixed into 3/5/6 features, noise-free and 1% noise) x (use_pca=False | use_pca=True x n_pca_modes in {2,3,4,'all'}) "
+    "decaying mode, mixed into 3/5/6 features, noise-free and 1% noise; growing oscillators |lambda| in {1.01,1.05}, noise-free) x (use_pca=False | use_pca=True x n_pca_modes in {2,3,4,'all'}) "
     "x center x standardize (thorough: x use_coslat x weights, more series); a case is non-trivial when the fit returned and the eigen-relation, "
     "pairing, period/damping formulae, ordering and transform=scores clauses were all evaluated on >= 2 modes; cases whose lag-0 covariance is "
     "singular in the reference (more PCs than the rank of a noise-free series) or whose PCA cut falls inside a degenerate cluster are outside "
@@ -40,7 +40,7 @@ ASSUMPTIONS = [
     "negative real eigenvalues: period 2 (formula) and inf (parenthetical of the statement) are both accepted",
     "n_pca_modes given as a float (variance fraction) is not enumerated: the number of PCs it selects belongs to C15/C16; solver_kwargs is never passed (C15)",
 ]
-TALLY_KEYS = ("kind", "use_pca", "n_pca_modes", "noise", "center", "standardize")
+TALLY_KEYS = ("kind", "r", "use_pca", "n_pca_modes", "noise", "center", "standardize")
 TRUSTED = ["statsmodels import shim not used here"]
 
 GRID = {3: (3, 1), 4: (2, 2), 5: (5, 1), 6: (3, 2)}
@@ -63,10 +63,10 @@ def _datasets(tier):
         ds.append(dict(kind="random", shape=[n, p], spec=s, noise=None, r=None, theta=None))
     ns = [N_OSC] if tier == "quick" else [N_OSC, 25]
     for n in ns:
-        for r in (0.7, 0.9):
+        for r in (0.7, 0.9, 1.01, 1.05):  # |lambda| > 1: growing oscillation (negative damping time), noise-free only
             for th in (0.3, 0.5, 1.2):
                 for p in (3, 5, 6):
-                    for noise in (0.0, 0.01):
+                    for noise in ((0.0, 0.01) if r < 1 else (0.0,)):
                         ds.append(dict(kind="osc", shape=[n, p], spec=None, noise=noise, r=r, theta=th))
     return ds
 
@@ -99,7 +99,7 @@ def build_matrix(case, seed):
     if case["kind"] == "random":
         return D.make_matrix(n, p, case["spec"], 1.0, False, seed, salt=18)
     r, th = case["r"], case["theta"]
-    rng = np.random.default_rng([int(seed), 18, n, p, int(round(r * 10)), int(round(th * 10))])
+    rng = np.random.default_rng([int(seed), 18, n, p, int(round(r * 100)), int(round(th * 10))])
     Q = rng.standard_normal((p, D_STATE))
     Q, _ = np.linalg.qr(Q)  # well-conditioned mixing
     Q = Q * (1.0 + rng.random(D_STATE))[None, :]
@@ -340,7 +340,7 @@ def run_case(case, seed):
         if not (eT <= 1e-8 and etau <= 1e-8):
             bad("truth_recovery", "noise-free oscillator: periods %s vs true %s, damping times %s vs true %s" % (T_got, T_true, tau_got, tau_true))
 
-    info = dict(k=k, estimator=conv, residual=float(res.max()), n_complex=len(cplx), cond=ref["cond"], gap=ref["gap"], exact=bool(exact))
+    info = dict(k=k, estimator=conv, residual=float(res.max()), n_complex=len(cplx), cond=ref["cond"], gap=ref["gap"], exact=bool(exact), max_abs_lambda=float(np.abs(lam).max()))
     return dict(violations=V, outcome="violation" if V else ("ok:exact" if exact else "ok"), nontrivial=not V and k >= 2 and P.size > 0 and S.size > 0, info=info)
 
 
@@ -353,6 +353,10 @@ def vacuity(outcomes, results, tier):
             return "no fit produced a complex conjugate pair"
         if not any(i.get("n_complex", 0) < i.get("k", 0) for i in infos):
             return "no fit produced a real eigenvalue"
+        if not any(i.get("max_abs_lambda", 0.0) > 1.0 + 1e-6 for i in infos):
+            return "no fit produced a growing mode (|lambda| > 1): the damping-time formula was only evaluated for |lambda| < 1"
+        if not any(i.get("exact") and i.get("max_abs_lambda", 0.0) > 1.0 + 1e-6 for i in infos):
+            return "no growing oscillator reached the truth-recovery clause"
         if len({i.get("k") for i in infos}) < 3:
             return "fewer than three distinct numbers of retained PCs were exercised"
     return None
